@@ -11,7 +11,7 @@ ID = "C20"
 LEVEL = "exploration"
 BUILDS = {"quick": ["rel"], "thorough": ["rel", "tsan"]}
 OPTIONAL_BUILDS = ["tsan"]
-BUDGET_S = {"quick": 150, "thorough": 2400}
+BUDGET_S = {"quick": 600, "thorough": 2400}
 RULE = ("Generated repositories (C11's generator: 2-6 files, all seven validators, mixed severities; half of them with an "
         "`affects` diff + `**` glob; a quarter with one malformed rule so that an Err races with diagnostics) are executed "
         "8 (quick) / 16 (thorough) times each under perturbations that must not matter: fresh process (new SipHash keys), "
